@@ -41,7 +41,25 @@ ScaleLists == {VL(<<VN(1, 0), VN(10, 0 - 1), VN(2, 0)>>), VL(<<VN(2, 0), VN(20, 
                VL(<<VN(5, 0 - 1), VN(4, 0), VN(50, 0 - 2), VN(40, 0 - 1), VN(7, 0), VN(7, 0)>>), VL(<<VN(10, 0 - 1), VN(1, 0)>>),
                VL(<<VN(30, 0 - 1), VN(1, 0), VN(3, 0), VN(100, 0 - 2)>>)}
 C(f, args) == [fn |-> f, args |-> args]
+\* numbers of many digits (coefficient digits, most significant first): items of a stddev that lie close together
+VBig(s, c, e) == [k |-> "num", s |-> s, c |-> c, e |-> e]
+Zeros(n) == [i \in 1..n |-> 0]
+BigNear(d, tail, e) == VBig(0, <<1>> \o Zeros(d) \o tail, e)                     \* 1 0..0 tail  * 10^e
+StddevLists ==
+  {VL(<<BigNear(18, <<1>>, 0), BigNear(18, <<2>>, 0), BigNear(18, <<3>>, 0)>>),                                  \* 10^19 + 1, + 2, + 3
+   VL(<<BigNear(20, <<5>>, 0 - 1), BigNear(19, <<1, 5>>, 0 - 1)>>),                                              \* 10^20 + 0.5, + 1.5
+   VL(<<BigNear(15, <<7, 1>>, 0 - 1), BigNear(15, <<7, 2>>, 0 - 1), BigNear(15, <<7, 3>>, 0 - 1), BigNear(15, <<7, 4>>, 0 - 1)>>),
+   VL(<<BigNear(28, <<1>>, 0), BigNear(28, <<9>>, 0)>>),
+   VL(<<BigNear(16, <<1>>, 5), BigNear(16, <<2>>, 5), BigNear(16, <<4>>, 5)>>),
+   VL(<<VBig(1, <<1>> \o Zeros(18) \o <<1>>, 0), VBig(1, <<1>> \o Zeros(18) \o <<3>>, 0)>>),                     \* negative items
+   VL(<<BigNear(12, <<1>>, 0), BigNear(12, <<2>>, 0), BigNear(12, <<3>>, 0)>>),
+   VL(<<VN(1, 0), VN(2, 0), VN(2, 0)>>), VL(<<VN(0 - 5, 0 - 1), VN(15, 0 - 1)>>), VL(<<VN(1, 0), VN(1, 0)>>), VL(<<VN(1, 6), VN(1, 0 - 6)>>)}
 Cases ==
+  \* a list followed by further arguments is NOT "the list form": the arguments are the items (a list among numbers)
+  {C(f, <<l>> \o rest) : f \in {"min", "max", "sum", "mean", "median", "mode", "stddev"}, l \in {L12, L123, L1, L0},
+                          rest \in {<<VN(4, 0)>>, <<L1>>, <<VN(0, 0), VN(9, 0)>>, <<VNull>>}} \cup
+  {C("all", <<l>> \o rest) : l \in {VL(<<VB(TRUE), VB(TRUE)>>), VL(<<VB(TRUE)>>), VL(<<>>)}, rest \in {<<VB(FALSE)>>, <<VL(<<VB(FALSE)>>)>>, <<VB(TRUE)>>, <<VB(TRUE), VB(FALSE)>>}} \cup
+  {C("stddev", <<l>>) : l \in StddevLists} \cup {C("stddev", l.items) : l \in StddevLists} \cup
   {C(f, <<l>>) : f \in {"min", "max", "sum", "mean", "median", "mode", "stddev", "distinct values", "count", "reverse"}, l \in ScaleLists}
   \cup {C(f, <<l, x>>) : f \in {"index of", "list contains"}, l \in ScaleLists, x \in {VN(1, 0), VN(10, 0 - 1), VN(300, 0 - 2), VN(2, 0)}}
   \cup {C("union", <<a, b>>) : a \in ScaleLists, b \in {VL(<<VN(100, 0 - 2), VN(2, 0)>>)}}
